@@ -24,7 +24,8 @@
       - the constructor and [Impl.Subscribe] fail when their context is already
         cancelled (a dial on a cancelled context fails);
       - a [Recv] that blocks returns an error once the context is cancelled or
-        the [Impl] is closed; all other calls return;
+        the [Impl] is closed ([IBlock]), or only once the [Impl] is closed
+        ([IBlockQ], a quiet stream not woken by its context); all other calls return;
       - data that is already available may still be delivered by [Recv] after
         cancellation (the transport is adversarial here);
       - the first [Recv] that decodes something emits [Connected] before it
@@ -104,7 +105,9 @@ Inductive item :=
 | IMsg (n : nat)   (* a message carrying n notifications arrives; Recv returns nil *)
 | IErr             (* Recv returns an error *)
 | IEof             (* Recv returns io.EOF / ErrStopReading *)
-| IBlock.          (* nothing arrives: Recv blocks until cancelled / closed, then fails *)
+| IBlock           (* nothing arrives: Recv blocks until cancelled / closed, then fails *)
+| IBlockQ.         (* a quiet stream whose Recv is NOT woken by the context: it blocks until
+                      the Impl itself is closed, then fails *)
 
 Record attempt := { a_init : bool; a_sub : bool; a_items : list item }.
 
@@ -250,6 +253,8 @@ Section Model.
         | Some IEof => [(None, end_attempt false s)]
         | Some IBlock =>
             if cancelled s || s_curcl s then [(None, set_spc SRunClose s)] else []
+        | Some IBlockQ =>
+            if s_curcl s then [(None, set_spc SRunClose s)] else []
         | None =>
             if s_conn s then [(Some ESync, end_attempt false s)]
             else [(Some EConn, set_spc (SSyncEnd i) (set_conn true s))]
